@@ -41,6 +41,11 @@ func gen(g *kernel.Rng, seed uint64, tier string) *kernel.Plan {
 	p.Cfg["wsegB"] = int64([]int{simnet.SegWhole, simnet.SegChunky}[g.Intn(2)])
 	p.Cfg["post"] = int64(g.Pick(1, 6))
 	p.Cfg["hs"] = int64(g.Pick(7, 3))
+	// W raises its own chunk size first, and its requests carry a long string:
+	// above the writer's buffer size the tail of a request goes to the transport
+	// straight from the chunking loop, before any flush
+	p.Cfg["wscs"] = g.OneOf(0, 0, 0, 0, 4096, 60000, 1<<22)
+	p.Cfg["bigreq"] = g.OneOf(0, 0, 0, 0, 5000, 9000, 20000)
 	n := g.Range(1, 12)
 	long := g.Bool(0.03)
 	if long {
@@ -175,7 +180,7 @@ func run(p *kernel.Plan) (res *kernel.Result) {
 	wfailed := false  // touched by task Aw only
 	var reqs []reqRec // written by task Aw only
 	var decs []decRec // written by task Ar only
-	var answered, dupSent, scsSent, pingSent, amf3Sent int
+	var answered, dupSent, scsSent, pingSent, amf3Sent, bigReqs, ownScs int
 	// packets are built here, outside the tasks (building uses fmt; see Task.Evf)
 	pkts := make([]rtmp.Packet, len(p.Ops))
 	for i, op := range p.Ops {
@@ -186,6 +191,19 @@ func run(p *kernel.Plan) (res *kernel.Result) {
 			c.TransactionID = amf0.Number(float64(op.N[0]) / 4)
 			pkts[i] = c
 		}
+		if n := p.C("bigreq"); n > 0 && i%2 == 0 {
+			pad := amf0.NewString(strings.Repeat("p", int(n)))
+			switch q := pkts[i].(type) {
+			case *rtmp.ConnectAppPacket:
+				q.CommandObject.Set("zpad", pad)
+				bigReqs++
+			case *rtmp.CreateStreamPacket:
+				o := amf0.NewObject()
+				o.Set("zpad", pad)
+				q.CommandObject = o
+				bigReqs++
+			}
+		}
 	}
 	s.Hook = func(s *rtmpx.Session, e *rtmpx.End, t *kernel.Task, i int, op kernel.Op) bool {
 		if e != s.A {
@@ -193,6 +211,14 @@ func run(p *kernel.Plan) (res *kernel.Result) {
 		}
 		if !armed {
 			armed = true
+			if n := p.C("wscs"); n > 0 {
+				sc := rtmp.NewSetChunkSize()
+				sc.ChunkSize = uint32(n)
+				if err := e.Proto.WritePacket(sc, 0); err != nil {
+					wfailed = true
+				}
+				ownScs++
+			}
 			if faultAt >= 0 {
 				e.Conn.Out.WErrAt = e.Conn.Out.St.Writes + faultAt
 			}
@@ -527,6 +553,8 @@ func run(p *kernel.Plan) (res *kernel.Result) {
 	res.Stat("peer_set_chunk_size_before_response", int64(scsSent))
 	res.Stat("peer_ping_request_before_response", int64(pingSent))
 	res.Stat("responses_sent_as_amf3_command", int64(amf3Sent))
+	res.Stat("requests_with_long_string", int64(bigReqs))
+	res.Stat("writer_raised_own_chunk_size", int64(ownScs))
 	res.Nontrivial = len(reqs) > 0
 	res.State = uint64(len(reqs))<<16 | uint64(inWrite)<<8 | uint64(dupSent)
 	return res
